@@ -11,7 +11,7 @@
    turbotunnel qx <cap> <timeout> <ops>   QueuePacketConn model with explicit clock (model only)
         as qc plus w<addr>:<payload>@<now>, o<addr>@<now>, h<k> held recv, e<now> sweep *)
 From Coq Require Import List NArith ZArith Bool Arith String.
-From Snow Require Import Lib.Wire Model.GoHeap Model.ClientMap Model.QueueConn.
+From Snow Require Import Lib.Wire Model.GoHeap Model.ClientMap Model.QueueConn Model.Redial.
 Import ListNotations.
 Open Scope N_scope.
 
@@ -171,6 +171,147 @@ Definition qout_print (o : qout) : bytes :=
   | OCloseOk => bs "ok"
   end.
 
+
+(* ---------------------------------------------------------------- redial *)
+(*  turbotunnel redial <ecap> <tokens>     (tokens: see harness/overlay/zz_verif/turbotunnel/redial.go)
+    After every token all internal steps are run to quiescence under EVERY schedule; the
+    result is the set of possible observation lines, separated by '|'. *)
+Inductive rtok := KDial (ok : bool) | KRead (k : nat) (ok : bool) | KWrite (k : nat) (ok : bool) | KUW | KUR | KUC.
+
+Definition kb_parse (r : bytes) : option (nat * bool) :=
+  match split_on COLON r with
+  | [a; b] => match dec_parse_nat a, bool_parse b with
+              | Some k, Some ok => Some (k, ok)
+              | _, _ => None
+              end
+  | _ => None
+  end.
+
+Definition rtok_parse (t : bytes) : option rtok :=
+  match t with
+  | [68; 49] => Some (KDial true)       (* D1 *)
+  | [68; 48] => Some (KDial false)      (* D0 *)
+  | [87] => Some KUW
+  | [82] => Some KUR
+  | [67] => Some KUC
+  | 114 :: r => option_map (fun x => KRead (fst x) (snd x)) (kb_parse r)
+  | 119 :: r => option_map (fun x => KWrite (fst x) (snd x)) (kb_parse r)
+  | _ => None
+  end.
+
+Open Scope nat_scope.
+Definition QCAP : nat := 2048.
+
+Definition enc_b (b : bool) : nat := if b then 1 else 0.
+Definition enc_car (c : carrier) : list nat :=
+  [match c_r c with RTop => 0 | RRead => 1 | RSend => 2 | RDone => 3 end;
+   match c_w c with WSel => 0 | WWrite => 1 | WSend => 2 | WDone => 3 end;
+   ch_buf (c_rerr c); enc_b (ch_closed (c_rerr c)); ch_buf (c_werr c); enc_b (ch_closed (c_werr c)); c_nclose c].
+Definition enc_state (s : rstate) : list nat :=
+  [enc_b (r_closed s); match r_err s with ENone => 0 | EClosedConn => 1 | EDialFailed => 2 end;
+   match r_d s with DTop => 0 | DDial => 1 | DExch _ => 2 | DClose _ => 3 | DDone => 4 end;
+   match r_d s with DExch k => k | DClose k => k | _ => 0 end;
+   r_sendq s; r_recvq s; enc_b (g_close_called s); enc_b (g_dial_failed s)] ++ flat_map enc_car (r_cs s).
+
+Fixpoint lnat_eqb (a b : list nat) : bool :=
+  match a, b with
+  | [], [] => true
+  | x :: a', y :: b' => Nat.eqb x y && lnat_eqb a' b'
+  | _, _ => false
+  end.
+
+Definition config := (rstate * list nat)%type.      (* state, answer codes (reversed) *)
+Definition enc_config (c : config) : list nat := snd c ++ [99] ++ enc_state (fst c).
+
+Fixpoint dedupe (seen : list (list nat)) (cs : list config) : list config :=
+  match cs with
+  | [] => []
+  | c :: cs' =>
+      let e := enc_config c in
+      if existsb (lnat_eqb e) seen then dedupe seen cs' else c :: dedupe (e :: seen) cs'
+  end.
+
+Section RedialRun.
+  Variable ecap : nat.
+
+  Fixpoint closure (fuel : nat) (s : rstate) : list rstate :=
+    match fuel with
+    | O => [s]
+    | S f =>
+        match filter (enabled ecap QCAP s) (internal_labels s) with
+        | [] => [s]
+        | en => flat_map (fun l => match step ecap QCAP s l with Some s' => closure f s' | None => [] end) en
+        end
+    end.
+
+  Definition settle (cs : list config) : list config :=
+    dedupe [] (flat_map (fun c => map (fun s => (s, snd c)) (closure 64 (fst c))) cs).
+
+  (* answer codes: 0 "-", 1 "n", 2 "ok", 3 "E", 4 "p", 5 "B" *)
+  Definition apply_tok (t : rtok) (c : config) : config :=
+    let '(s, ans) := c in
+    let try (l : label) (pre : bool) :=
+      if pre then match step ecap QCAP s l with Some s' => (s', 0 :: ans) | None => (s, 1 :: ans) end
+      else (s, 1 :: ans) in
+    match t with
+    | KDial ok => try (if ok then LDialOk else LDialFail) true
+    | KRead k ok =>
+        match nth_error (r_cs s) k with
+        | Some car => try (if ok then LReadOk k else LReadFail k) (negb (c_closed car))
+        | None => (s, 1 :: ans)
+        end
+    | KWrite k ok =>
+        match nth_error (r_cs s) k with
+        | Some car => try (if ok then LWriteOk k else LWriteFail k) (negb (c_closed car))
+        | None => (s, 1 :: ans)
+        end
+    | KUW => let a := match user_result s LUWrite with UErr _ => 3 | _ => 2 end in
+             match step ecap QCAP s LUWrite with Some s' => (s', a :: ans) | None => (s, a :: ans) end
+    | KUR => let a := match user_result s LURead with UErr _ => 3 | UPacket => 4 | _ => 5 end in
+             match step ecap QCAP s LURead with Some s' => (s', a :: ans) | None => (s, a :: ans) end
+    | KUC => let a := match user_result s LUClose with UErr _ => 3 | _ => 2 end in
+             match step ecap QCAP s LUClose with Some s' => (s', a :: ans) | None => (s, a :: ans) end
+    end.
+
+  Fixpoint rrun (toks : list rtok) (cs : list config) : list config :=
+    match toks with
+    | [] => cs
+    | t :: toks' => rrun toks' (settle (map (apply_tok t) cs))
+    end.
+End RedialRun.
+
+Definition ans_print (a : nat) : bytes :=
+  match a with 0 => bs "-" | 1 => bs "n" | 2 => bs "ok" | 3 => bs "E" | 4 => bs "p" | _ => bs "B" end.
+
+Definition dotted (l : list bytes) : bytes := or_e (join [DOT] l).
+
+Fixpoint open_idx (i : nat) (cs : list carrier) : list nat :=
+  match cs with
+  | [] => []
+  | c :: t => if c_closed c then open_idx (S i) t else i :: open_idx (S i) t
+  end.
+
+Definition config_print (c : config) : bytes :=
+  let s := fst c in
+  list_print (map ans_print (List.rev (snd c))) ++ [SEMI] ++
+  bs "dials=" ++ nat_print (List.length (r_cs s) + (match r_d s with DDial => 1 | _ => 0 end) + (if g_dial_failed s then 1 else 0)) ++
+  bs " open=" ++ dotted (map nat_print (open_idx 0 (r_cs s))) ++
+  bs " max=" ++ nat_print (Nat.min 1 (List.length (r_cs s))) ++
+  bs " closes=" ++ dotted (map (fun c => nat_print (c_nclose c)) (r_cs s)) ++
+  bs " dialing=" ++ nat_print (match r_d s with DDial => 1 | _ => 0 end) ++
+  bs " left=" ++ nat_print (threads_left s).
+
+Open Scope N_scope.
+Definition BAR : N := 124.
+
+Definition redial_run (ecap : nat) (toks : list rtok) : bytes :=
+  join [BAR] (map config_print (rrun ecap toks (settle ecap [(rs_init, [])]))).
+
+(* the op list of a qc case may be split over several space separated fields (Wire.split_on is
+   quadratic in the length of one field) *)
+Definition chunks_parse {A} (f : bytes -> option A) (fields : list bytes) : option (list A) :=
+  option_map (@List.concat A) (map_opt (list_parse f) fields).
+
 Definition run (args : list bytes) : bytes :=
   match args with
   | [op; a] =>
@@ -180,24 +321,34 @@ Definition run (args : list bytes) : bytes :=
         | None => ERR_BADCASE
         end
       else ERR_BADCASE
-  | [op; a; b] =>
-      if beq op (bs "cm") then
-        match zdec_parse a, list_parse cmtok_parse b with
-        | Some timeout, Some ops => list_print (cmrun timeout ops cm_empty)
-        | _, _ => ERR_BADCASE
-        end
-      else if beq op (bs "qc") then
-        match dec_parse_nat a, list_parse qop_parse b with
+  | op :: a :: rest =>
+      if beq op (bs "qc") then
+        match dec_parse_nat a, chunks_parse qop_parse rest with
         | Some cap, Some ops => list_print (map qout_print (snd (qrun cap 1%Z ops qc_empty)))
         | _, _ => ERR_BADCASE
         end
-      else ERR_BADCASE
-  | [op; a; b; c] =>
-      if beq op (bs "qx") then
-        match dec_parse_nat a, zdec_parse b, list_parse qop_parse c with
-        | Some cap, Some timeout, Some ops => list_print (map qout_print (snd (qrun cap timeout ops qc_empty)))
-        | _, _, _ => ERR_BADCASE
-        end
-      else ERR_BADCASE
+      else
+      match rest with
+      | [b] =>
+          if beq op (bs "cm") then
+            match zdec_parse a, list_parse cmtok_parse b with
+            | Some timeout, Some ops => list_print (cmrun timeout ops cm_empty)
+            | _, _ => ERR_BADCASE
+            end
+          else if beq op (bs "redial") then
+            match dec_parse_nat a, list_parse rtok_parse b with
+            | Some ecap, Some toks => redial_run ecap toks
+            | _, _ => ERR_BADCASE
+            end
+          else ERR_BADCASE
+      | [b; c] =>
+          if beq op (bs "qx") then
+            match dec_parse_nat a, zdec_parse b, list_parse qop_parse c with
+            | Some cap, Some timeout, Some ops => list_print (map qout_print (snd (qrun cap timeout ops qc_empty)))
+            | _, _, _ => ERR_BADCASE
+            end
+          else ERR_BADCASE
+      | _ => ERR_BADCASE
+      end
   | _ => ERR_BADCASE
   end.
